@@ -86,7 +86,7 @@ CHECKS.update({
 # sentences appended to the level text of a check when later rounds widened its space (kept separate so that the
 # original description stays readable)
 ADDENDA = {
- "C01": " Rounds 8-9 added: negative per-unit rates, and postings that carry a cost or lot price AND a (true) balance assertion.",
+ "C01": " Rounds 8-9 added: negative per-unit rates, postings that carry a cost or lot price AND a (true) balance assertion, and a rendering in which every account is declared with an alias after its first use and the judged transaction is written through the aliases.",
  "C02": " Round 9 added start states in which one account holds three and four commodities.",
  "C03": " Round 9 added start states in which one account holds three and four commodities (a bare `= 0` there must be rejected).",
  "C04": " Rounds 8-9 added: a command-line pass over every one-bound spelling (--start, --begin, --end), and for ledgers written in one commodity the identity conversion (-X that commodity, up-to-date and historical) over every range.",
